@@ -731,6 +731,11 @@ def _stage(seed, tier, key="N-x"):
     pkgs.append(("build_tags", {"app_free.go": R["BUILD_TAG_FREE"], "app_pro.go": R["BUILD_TAG_PRO"], "main.go": R["BUILD_TAG_MAIN"]}, ["app_free.go"], None,
                  dict(kind="sources under complementary build constraints", run=True, vet_tags=["pro"],
                       more_steps=[dict(targets=["app_pro.go"], goflags="-mod=mod -tags=pro")])))
+    pkgs.append(("build_tags_plus", {"app_free.go": R["BUILD_TAG_FREE"].replace("//go:build !pro", "// +build !pro"), "app_pro.go": R["BUILD_TAG_PRO"].replace("//go:build pro", "// +build pro"), "main.go": R["BUILD_TAG_MAIN"]}, ["app_free.go"], None,
+                 dict(kind="sources under complementary build constraints spelled // +build", run=True, vet_tags=["pro"],
+                      more_steps=[dict(targets=["app_pro.go"], goflags="-mod=mod -tags=pro")])))
+    pkgs.append(("build_tags_plus_one", {"app_free.go": R["BUILD_TAG_FREE"].replace("//go:build !pro", "// +build !pro"), "main.go": "package main\n\ntype App struct{ edition string }\n\nfunc main() {}\n"}, ["app_free.go"], None,
+                 dict(kind="a source constrained by a // +build line only: its output must carry the constraint", vet_tags=["pro"])))
     pkgs.append(("handwritten_band", {"k.go": R["HANDWRITTEN_BAND_K"], "k_band.go": R["HANDWRITTEN_BAND_B"]}, ["k.go"], None, dict(kind="a hand-written file at the output's path", run=True)))
     pkgs.append(("known_KF_C02_1", {"k.go": R["CTX_KEPT"]}, ["k.go"], "KF-C02-1", dict(kind="known finding reproducer (a provider keeps the context it is given)", signature="no vet signature: the file compiles", run=True, run_signature="cancelled when the injector returns")))
     pkgs.append(("inaccessible_internal", {"k.go": R["INTERNAL_K"].replace("known_KF_C04_26", "inaccessible_internal"), "lib/l.go": R["INTERNAL_LIB"].replace("known_KF_C04_26", "inaccessible_internal"), "lib/internal/impl/i.go": R["INTERNAL_IMPL"]}, ["k.go"], None, dict(kind="a value of an internal package's type in an injector with goroutines (repaired: refused)", expect_refused="is not accessible from")))
